@@ -85,6 +85,14 @@ void Uci::loop()
             sync_cout << "Unknown command" << sync_endl;
         }
     }
+
+    // do not leave (and let the caller destroy this object) while the search
+    // thread is still using it
+    if (search_thread.joinable())
+    {
+        if (search) search->stop();
+        search_thread.join();
+    }
 }
 
 bool Uci::uci_command(std::istringstream& /* istream */)
@@ -312,10 +320,17 @@ bool Uci::go_command(std::istringstream& istream)
         have_token = static_cast<bool>(istream >> token);
     }
 
+    // one search at a time: the previous search thread must be gone before
+    // its Search object is replaced
+    if (search_thread.joinable())
+    {
+        search->stop();
+        search_thread.join();
+    }
+
     search = std::make_shared<Search>(position, limits, scorer, ttable);
 
-    std::thread search_thread(start_searching, this, limits);
-    search_thread.detach();
+    search_thread = std::thread(start_searching, this, limits);
 
     return true;
 }
